@@ -193,3 +193,14 @@ def loops_in(src, mask, lo, hi):
             continue
         out.append((mm.start(), kw, ob, match_close(src, mask, ob)))
     return out
+
+
+def impl_for_span(src, mask, trait, type_name, lo=0, hi=None):
+    """Spans of `impl<..> Trait for TypeName<..> {` blocks."""
+    hi = len(src) if hi is None else hi
+    out = []
+    pat = r"(?m)^[ \t]*impl(?:<[^>{]*>)?[ \t]+%s[ \t]+for[ \t]+%s\b(?:<[^{]*>)?[ \t\n]*(?:where[^{]*)?\{" % (re.escape(trait), re.escape(type_name))
+    for mm in find_code(src, mask, pat, lo, hi):
+        ob = mm.end() - 1
+        out.append((mm.start(), match_close(src, mask, ob) + 1))
+    return out
